@@ -107,6 +107,20 @@ def print_assumptions(ctx, module, theorems):
     return closed, out
 
 
+def coqchk_module(ctx, module, timeout=2700):
+    """Thorough tier: the independent checker re-checks the compiled property file and everything it depends on and
+    lists the axioms they rely on."""
+    rc, out = sh("timeout %d coqchk -silent -o -Q Skel STFS -Q Gen STFS -Q Mon STFS -Q Model STFS -Q Proofs STFS -Q Props STFS STFS.%s" % (timeout, module),
+                 cwd=COQ, timeout=timeout + 60)
+    if rc == 124:
+        ctx.note("coqchk did not finish on STFS.%s within %d s (the kernel build and Print Assumptions stand)" % (module, timeout))
+        return None
+    ok = rc == 0 and re.search(r"Axioms:\s*<none>", out) is not None and "type-in-type: <none>" in out
+    ctx.oblige("coqchk (independent checker) accepts STFS.%s and its dependencies: no axioms, no type-in-type, no unsafe fixpoints, no assumed positivity" % module, ok, out[-1500:])
+    ctx.assumptions.append("coqchk -o STFS.%s: %s" % (module, " ".join(out[out.find("CONTEXT SUMMARY"):].split())[:400]))
+    return ok
+
+
 GATE = re.compile(r"\b(Admitted|admit|Axiom|Axioms|Parameter|Parameters|Conjecture|Admit Obligations)\b|Unset Guard Checking|bypass_check|-type-in-type|-impredicative-set|Unset Positivity|Unset Universe Checking")
 
 
